@@ -32,6 +32,10 @@ def scripts(rnd, quick):
                                 va = rnd.choice([addr, 0, 0xFFFFFFFF, 0x00C000DB])
                                 data = [rnd.choice([192, 219, rnd.randint(0, 255)]) for _ in range(n * (2 if mem16 else 1))]
                                 sc.append(rx(tr, mem16, cap, w, verdict=verdict, vaddr=va, data=data))
+            # reads of 2^16 .. 2^32 - 1 words: no buffer can hold the answer - transmit overflow, memory untouched (also C09)
+            for ws16 in (0, 1):
+                for n in (0x10000, 0x7FFFFFFF, 0x80000000, 0x80000001, 0x80000005, 0x8000FFFF, 0xFFFFFFFF):
+                    sc.append(rx(tr, mem16, cap, wire(tr, request(tr, 0, ws16, rnd.choice(seqs), rnd.choice(addrs), n)), verdict=0, data=[7] * 16))
             # non-requests: responses and meta messages must cause neither access nor reply
             for ftype, meta in ((T_RRESP, 0), (T_WRESP, 0), (T_RRESP, 7), (T_WRESP, 11), (T_META, 1), (T_META, 2)):
                 pl = [1, 2, 3, 4] if meta == 7 else []
